@@ -84,19 +84,12 @@ type fnSig struct {
 	// the function calls itself: its definition has the additional parameter `fuel : Nat` (after deps); only the function
 	// itself may call it (loops_rec.go)
 	recursive bool
+	// a method with a value receiver of a named slice type: the receiver is the first parameter of the definition; not
+	// callable from translated code for now (loops_strs.go)
+	sliceRecv bool
 }
 
-// externFns: library functions that are not modelled but passed in as PARAMETERS of the translated functions that use
-// them (and of their callers): the tie theorems state what they assume about them.
-var externFns = map[string]struct {
-	param, ty string
-	args      []lkind
-	ret       lkind
-}{
-	"strings.ToLower":   {"strings_ToLower", "List (BitVec 8) → List (BitVec 8)", []lkind{kString}, kString},
-	"strings.ToUpper":   {"strings_ToUpper", "List (BitVec 8) → List (BitVec 8)", []lkind{kString}, kString},
-	"strings.LastIndex": {"strings_LastIndex", "List (BitVec 8) → List (BitVec 8) → BitVec 64", []lkind{kString, kString}, kInt},
-}
+// (externFns, the library functions that are passed in as PARAMETERS, are in loops_strs.go)
 
 // depArgs returns the dependency arguments for a call of sig and records them as dependencies of the caller.
 func (t *loopTr) depArgs(sig *fnSig) []string {
@@ -134,6 +127,9 @@ func (t *loopTr) sigOf(c *ast.CallExpr) (*fnSig, *types.Func) {
 				if v, ok := t.info.Uses[x].(*types.Var); ok && !v.IsField() && v.Parent() == t.set.tp.tpkg.Scope() {
 					if fn, ok := t.info.Uses[f.Sel].(*types.Func); ok && fn.Pkg() != nil {
 						if sig := loopSigs[sigKey(fn.Pkg().Path(), recvTypeName(fn)+"."+fn.Name())]; sig != nil {
+							if sig.sliceRecv {
+								t.fail(c, "call of the method %s, which has a value receiver of a slice type: not supported", sig.lean)
+							}
 							return sig, fn
 						}
 					}
@@ -767,7 +763,8 @@ func (t *loopTr) sigCall(x *ast.CallExpr, sig *fnSig) (string, lkind) {
 
 // register records the signature of the function just translated for later callers.
 func (t *loopTr) register(leanName string) {
-	sig := &fnSig{lean: leanName, rets: t.rets, flow: t.flowFn, method: t.fd.Recv != nil, errAt: t.errAt, pkg: t.set.tp.tpkg, recursive: t.recursive}
+	sig := &fnSig{lean: leanName, rets: t.rets, flow: t.flowFn, method: t.fd.Recv != nil, errAt: t.errAt, pkg: t.set.tp.tpkg, recursive: t.recursive,
+		sliceRecv: t.recvParam != nil}
 	if t.set.ns != "" {
 		sig.lean = t.set.ns + "." + leanName
 	}
@@ -1198,6 +1195,9 @@ func (t *loopTr) mixesErrors() (at, opt bool) {
 				}
 				if t.isMarshalCall(x) {
 					kinds[kErr] = true // the error of MarshalBinary(): an opaque name
+				}
+				for _, k := range t.externErrKinds(x) {
+					kinds[k] = true // the error of a library function that is a parameter: an opaque name
 				}
 				if sel, ok := unparen(x.Fun).(*ast.SelectorExpr); ok && !inLit {
 					if f, ok := t.info.Uses[sel.Sel].(*types.Func); ok && f.Pkg() != nil && f.Pkg().Path() == "fmt" && f.Name() == "Errorf" {
